@@ -464,4 +464,40 @@ theorem sum_map_cast_mul (S : List UEv) (n : UEv → Nat) (k : Rat) :
   | nil => simp
   | cons e es ih => simp only [List.map_cons, List.sum_cons, ih]; push_cast; ring
 
+/-! ### name expansion (`[N]` + `fn_idx`) -/
+
+theorem replaceFirst_spec (pat rep : List Char) (hpat : pat ≠ []) (pre post : List Char)
+    (hfirst : ∀ k, k < pre.length → pat.isPrefixOf ((pre ++ pat ++ post).drop k) = false) :
+    replaceFirst pat rep (pre ++ pat ++ post) = pre ++ rep ++ post := by
+  induction pre with
+  | nil =>
+    cases pat with
+    | nil => exact absurd rfl hpat
+    | cons c cs =>
+      have hp : (c :: cs).isPrefixOf (c :: (cs ++ post)) = true :=
+        List.isPrefixOf_iff_prefix.mpr (List.prefix_append (c :: cs) post)
+      have hd : (c :: (cs ++ post)).drop (c :: cs).length = post := by
+        have := List.drop_left (l₁ := c :: cs) (l₂ := post)
+        simpa using this
+      show replaceFirst (c :: cs) rep (c :: (cs ++ post)) = rep ++ post
+      simp only [replaceFirst, hp, if_true, hd]
+  | cons a pre ih =>
+    have h0 := hfirst 0 (by simp)
+    simp only [List.drop_zero] at h0
+    have hstep : replaceFirst pat rep (a :: (pre ++ pat ++ post)) = a :: replaceFirst pat rep (pre ++ pat ++ post) := by
+      have h0' : pat.isPrefixOf (a :: (pre ++ pat ++ post)) = false := by simpa using h0
+      simp only [replaceFirst, h0', Bool.false_eq_true, if_false]
+    have := ih (fun k hk => by
+      have := hfirst (k + 1) (by simp; omega)
+      simpa using this)
+    simp only [List.cons_append] at hstep ⊢
+    rw [hstep, this]
+
+theorem endsWithChars_append (suf x post : List Char) (h : endsWithChars suf post = true) :
+    endsWithChars suf (x ++ post) = true := by
+  unfold endsWithChars at *
+  rw [List.reverse_append]
+  exact List.isPrefixOf_iff_prefix.mpr
+    ((List.isPrefixOf_iff_prefix.mp h).trans (List.prefix_append _ _))
+
 end AiuVerif.Util
